@@ -83,7 +83,9 @@ def build_tree(r, root):
                 arg = (lit[:-4] if lit.endswith(".nix") else lit) + "-absent.nix"
         elif style == "paren":
             arg = "(" + lit + ")"
-        contents[f] = "{\n  v = import %s;\n  other = %d;\n}\n" % (arg, 100 + i)
+        # what separates `import` from its argument is layout, not part of the call
+        sep = r.choice([" ", " ", " ", "\n    ", "\t", " /* c */ ", "  "]) if not arg.startswith("(") else r.choice([" ", " ", "", "\n    "])
+        contents[f] = "{\n  v = import%s%s;\n  other = %d;\n}\n" % (sep, arg, 100 + i)
     # decoys: same basenames in other directories (incl. future cwds), distinct integers
     ndecoys = 0
     for f in list(files):
